@@ -260,3 +260,86 @@ let hex_of_string (s : string) : string =
 let string_of_hex (h : string) : string =
   let h = if String.length h >= 2 && String.sub h 0 2 = "x:" then String.sub h 2 (String.length h - 2) else h in
   String.init (String.length h / 2) (fun i -> Char.chr (int_of_string ("0x" ^ String.sub h (2 * i) 2)))
+
+(* ------------------------------------------------------------------------------------------
+   Renaming for the scoping streams (C08, C19): binders are renamed from a small pool so that sibling
+   scopes re-use names; a name already in scope is never chosen (no shadowing). *)
+let name_pool = [| "a"; "b"; "c"; "i"; "in"; "iff"; "typ"; "\xc3\xa9"; "_x"; "x1"; "elsee"; "t" |]
+
+let rec let_chain (s : src) : (string * src option * src) list * src =
+  match s with
+  | SLet (ds, b) -> let (ds', b') = let_chain b in (ds @ ds', b')
+  | _ -> ([], s)
+
+let pick_fresh (r : Rng.t) (scope : string list) (k : int) : string =
+  let free = List.filter (fun n -> not (List.mem n scope)) (Array.to_list name_pool) in
+  if free <> [] && Rng.chance r 9 10 then Rng.pick r free else Printf.sprintf "v%d_%d" (List.length scope) k
+
+(* env: old name -> new name; scope: new names in scope *)
+let rec rename (r : Rng.t) (env : (string * string) list) (scope : string list) (s : src) : src =
+  let rn = rename r in
+  match s with
+  | SVar x -> SVar (try List.assoc x env with Not_found -> x)
+  | SLit _ | STrue | SFalse | SType | SInt | SBool | SHole -> s
+  | SLam (x, im, an, b) ->
+    let an' = (match an with Some a -> Some (rn env scope a) | None -> None) in
+    let x' = pick_fresh r scope 0 in
+    SLam (x', im, an', rn ((x, x') :: env) (x' :: scope) b)
+  | SPi (x, im, a, b) ->
+    let a' = rn env scope a in
+    let x' = pick_fresh r scope 0 in
+    SPi (x', im, a', rn ((x, x') :: env) (x' :: scope) b)
+  | SArrow (a, b) -> SArrow (rn env scope a, rn env scope b)
+  | SApp (f, a) -> SApp (rn env scope f, rn env scope a)
+  | SLet _ ->
+    let (ds, body) = let_chain s in
+    let (env', scope') = List.fold_left (fun (e, sc) (x, _, _) ->
+        let x' = pick_fresh r sc (List.length sc) in ((x, x') :: e, x' :: sc)) (env, scope) ds in
+    SLet (List.map (fun (x, an, d) ->
+        (List.assoc x env', (match an with Some a -> Some (rn env' scope' a) | None -> None), rn env' scope' d)) ds,
+          rn env' scope' body)
+  | SNeg a -> SNeg (rn env scope a)
+  | SBin (o, a, b) -> SBin (o, rn env scope a, rn env scope b)
+  | SIf (c, a, b) -> SIf (rn env scope c, rn env scope a, rn env scope b)
+
+(* single-point perturbations that unbind or shadow a name; returns None when no site exists *)
+let rec count_sites (s : src) : int =
+  match s with
+  | SVar _ -> 1
+  | SLit _ | STrue | SFalse | SType | SInt | SBool | SHole -> 0
+  | SLam (_, _, an, b) -> 1 + (match an with Some a -> count_sites a | None -> 0) + count_sites b
+  | SPi (_, _, a, b) -> 1 + count_sites a + count_sites b
+  | SArrow (a, b) | SApp (a, b) | SBin (_, a, b) -> count_sites a + count_sites b
+  | SLet (ds, b) -> List.fold_left (fun acc (_, an, d) -> acc + 1 + (match an with Some a -> count_sites a | None -> 0) + count_sites d) 0 ds + count_sites b
+  | SNeg a -> count_sites a
+  | SIf (c, a, b) -> count_sites c + count_sites a + count_sites b
+
+let perturb (r : Rng.t) (s : src) : src =
+  let n = count_sites s in
+  if n = 0 then s else begin
+    let target = Rng.int r n in
+    let k = ref (-1) in
+    let hit () = incr k; !k = target in
+    let other () = Rng.pick_arr r [| "zz"; "a"; "b"; "i"; "\xc3\xa9"; "_"; "q" |] in
+    let rec go (s : src) : src =
+      match s with
+      | SVar x -> if hit () then SVar (other ()) else s
+      | SLit _ | STrue | SFalse | SType | SInt | SBool | SHole -> s
+      | SLam (x, im, an, b) ->
+        let x' = if hit () then other () else x in
+        let an' = (match an with Some a -> Some (go a) | None -> None) in
+        SLam (x', im, an', go b)
+      | SPi (x, im, a, b) -> let x' = if hit () then other () else x in let a' = go a in SPi (x', im, a', go b)
+      | SArrow (a, b) -> let a' = go a in SArrow (a', go b)
+      | SApp (a, b) -> let a' = go a in SApp (a', go b)
+      | SBin (o, a, b) -> let a' = go a in SBin (o, a', go b)
+      | SLet (ds, b) ->
+        let ds' = List.map (fun (x, an, d) ->
+            let x' = if hit () then other () else x in
+            let an' = (match an with Some a -> Some (go a) | None -> None) in
+            (x', an', go d)) ds in
+        SLet (ds', go b)
+      | SNeg a -> SNeg (go a)
+      | SIf (c, a, b) -> let c' = go c in let a' = go a in SIf (c', a', go b) in
+    go s
+  end
